@@ -271,7 +271,7 @@ def main(ck):
     if lo is not None:
       active = bool(np.any(x <= lo + slack) or np.any(x >= hi - slack))
     if c['family'] == 'linear' and not narrow and (status in ('norm(gradient) < tol.', 'norm(dx) < tol.') or
-                                                   (status != 'maximum iterations reached.' and c['max_iter'] == 100)):
+                                                   c['max_iter'] == 100):      # default iteration budget: a linear problem must get there, whatever the status
       A, b = info['A'], info['b']
       sv = np.linalg.svd(A, compute_uv=False)
       cond = sv[0] / sv[-1] if (A.shape[0] >= n and sv[-1] > 0) else np.inf
@@ -282,7 +282,7 @@ def main(ck):
         stats['worst_lin_gap'] = max(stats['worst_lin_gap'], gap)
         labels.append('linear:compared')
         if gap > LIN_RTOL:
-          raise Violation('linear residual: converged (%s) at objective %r but the bounded global minimum is %r (x=%r, x*=%r)'
+          raise Violation('linear residual: ended (%s) at objective %r but the bounded global minimum is %r (x=%r, x*=%r)'
                           % (status, fx, fstar, x.tolist(), ref.x.tolist()), bucket='linear-optimum')
       else:
         labels.append('linear:illconditioned')
